@@ -185,7 +185,19 @@ func pollBody(e *event) []byte {
 
 func serve(mux http.Handler, method, target string, hdr map[string]string, body []byte, remote string) (rec *httptest.ResponseRecorder, pan string) {
 	rec = httptest.NewRecorder()
-	req := httptest.NewRequest(method, target, bytes.NewReader(body))
+	var req *http.Request
+	func() {
+		defer func() {
+			if r := recover(); r != nil {
+				req = nil // the generated request line is not valid HTTP: not a request a server ever sees
+			}
+		}()
+		req = httptest.NewRequest(method, target, bytes.NewReader(body))
+	}()
+	if req == nil {
+		rec.Code = 400
+		return rec, ""
+	}
 	if remote != "" {
 		req.RemoteAddr = remote
 	}
